@@ -290,7 +290,7 @@ func runCheck(c *Ctx, spec *Spec) (int, *Evidence) {
 				}
 			}
 		}
-		if nt {
+		if nt || r.Paths > 1 {
 			nontrivialJobs++
 		}
 		for k, n := range r.FuncInstrs {
